@@ -19,7 +19,8 @@ def main():
         ver = json.load(open(vf))
         meta = json.load(open(os.path.join(d, "meta.json")))
         pid = meta.get("property") or os.path.basename(os.path.dirname(d)).replace("out-", "")
-        name = "%s-%s" % (pid, os.path.basename(d))
+        rnd = "r2-" if "/seeds2/" in d else ""
+        name = "%s-%s%s" % (pid, rnd, os.path.basename(d))
         dst = os.path.join(VERIF, "seeded", name)
         if not ver.get("ok"):
             print("NOT KEPT (verification failed)", d, json.dumps(ver)[:300])
